@@ -28,12 +28,23 @@ CONSTANTS Type,        \* full name of the message type in Schema
           NObj,
           BadUtf8,     \* TRUE: string values also include ill-formed UTF-8 (C13)
           WireRecs,    \* wire records (byte strings); "uwire" steps unmarshal every concatenation of up to MaxRecs of them (C17)
-          MaxRecs
+          MaxRecs,
+          WireLimits   \* recursion limits used by "uwire" steps (0 = default)
 
 VARIABLES objs, hist,
-          cache       \* implementation-shaped observation state (C16): per object "none" | "fresh" | "stale":
-                      \* a size was cached by Size/Marshal ("fresh") and the tree was mutated afterwards ("stale")
-vars == <<objs, hist, cache>>
+          cache       \* implementation-shaped observation state (C16): per object the size that Size/Marshal last cached for it
+\* a second implementation-shaped observation: per object, the fields whose container was populated and then emptied
+\* in place (list Truncate(0), map Clear of the last key): the abstract content is "absent", but the implementation
+\* keeps an empty container / extension entry around, which later operations (Equal, Merge, Marshal) must ignore
+VARIABLE residue
+\* a third one: the input a message was lazily decoded from (and with which options), until its next mutation: default
+\* marshaling copies still-deferred submessages from that retained buffer, so two histories reaching the same abstract
+\* content from different inputs are different implementation states and both must be toured (C17, C09, C04)
+VARIABLE lazysrc
+\* a fourth one: which pairs of objects are related by Clone / Merge (the only operations that could make two objects
+\* share memory): equal contents reached with and without such a relation are different implementation states (C14)
+VARIABLE kin
+vars == <<objs, hist, cache, residue, lazysrc, kin>>
 
 One4 == <<1, 0, 0, 0>>
 One8 == <<1, 0, 0, 0, 0, 0, 0, 0>>
@@ -100,8 +111,10 @@ Steps ==
                  a \in Objs, x \in BadInputs, g \in BOOLEAN}
         ELSE {})
   \cup (IF "uwire" \in Global
-        THEN {[op |-> "unmarshal", o |-> a, b |-> x, merge |-> g, partial |-> TRUE, discard |-> FALSE, nolazy |-> z, limit |-> 0] :
-                 a \in Objs, x \in WireInputs, g \in BOOLEAN, z \in BOOLEAN}
+        THEN {[op |-> "unmarshal", o |-> a, b |-> x, merge |-> g, partial |-> TRUE, discard |-> dd, nolazy |-> z, limit |-> lm] :
+                 a \in (IF "uwall" \in Global THEN Objs ELSE {0}), x \in WireInputs,
+                 g \in (IF "uwmerge" \in Global THEN BOOLEAN ELSE {FALSE}), z \in BOOLEAN, lm \in WireLimits,
+                 dd \in (IF "uwdisc" \in Global THEN BOOLEAN ELSE {FALSE})}
         ELSE {})
   \cup (IF "evo" \in Global     \* every deletion of one or two of the touched top-level fields
         THEN {s \in {[op |-> "evo", o |-> a, o2 |-> b, del |-> d, det |-> FALSE] : a, b \in Objs, d \in EvoDels} : s.o # s.o2}
@@ -121,13 +134,39 @@ Sizes(s) == IF s.op \in {"size", "rt", "cat", "marshal"} THEN {s.o + 1} \cup (IF
 Mutates(s) == IF s.op \in MutOps \cup {"reset", "merge", "umerge", "scribble", "unmarshal"} THEN {s.o + 1}
               ELSE IF s.op \in {"rt", "clone", "evo"} THEN {s.o2 + 1}
               ELSE IF s.op = "cat" THEN {s.o3 + 1} ELSE {}
+\* the size cached for an object: the length of its encoding when Size / Marshal last ran on it (-1: nothing cached).
+\* A later mutation leaves the cached number in place, so a state remembers WHICH stale size the implementation holds:
+\* histories whose cached size differs from the current one are distinct states and are all toured.
 NextCache(s) == [i \in 1..NObj |->
-                   IF i \in Mutates(s) THEN (IF cache[i] = "none" THEN "none" ELSE "stale")
-                   ELSE IF i \in Sizes(s) THEN "fresh" ELSE cache[i]]
-Init == objs = InitObjs(NObj) /\ hist = <<>> /\ cache = [i \in 1..NObj |-> "none"]
+                   IF i \in Sizes(s) /\ ~IsDirty(objs[i]) /\ Utf8OK(Type, objs[i]) THEN Len(Encode(Type, objs[i]))
+                   ELSE IF i \in Mutates(s) /\ s.op \notin MutOps THEN -1
+                   ELSE cache[i]]
+TopOp(s) == s.op \in {"trunc", "mdel"} /\ s.at = <<>>
+NextResidue(s, post) ==
+  [i \in 1..NObj |->
+     IF s.op \in MutOps /\ i = s.o + 1 /\ "f" \in DOMAIN s /\ s.at = <<>> THEN
+          (IF TopOp(s) /\ ~Has(post[i], s.f) THEN residue[i] \cup {s.f}
+           ELSE IF Has(post[i], s.f) THEN residue[i] \ {s.f} ELSE residue[i])
+     ELSE IF i \in Mutates(s) /\ s.op \notin MutOps THEN {}       \* whole-object replacement forgets residues
+     ELSE residue[i]]
+NextLazySrc(s) ==
+  [i \in 1..NObj |->
+     IF s.op = "unmarshal" /\ i = s.o + 1 THEN (IF s.nolazy THEN <<>> ELSE <<s.b, s.discard, s.merge, lazysrc[i]>>)
+     ELSE IF i \in Mutates(s) THEN <<>> ELSE lazysrc[i]]
+NextKin(s) ==
+  LET fresh == IF s.op \in {"reset"} \/ (s.op = "unmarshal" /\ ~s.merge) THEN {s.o + 1}
+               ELSE IF s.op \in {"rt", "cat"} THEN {IF s.op = "rt" THEN s.o2 + 1 ELSE s.o3 + 1} ELSE {}
+      kept == {p \in kin : p \cap fresh = {}}
+  IN IF s.op = "clone" THEN {p \in kept : (s.o2 + 1) \notin p} \cup {{s.o + 1, s.o2 + 1}}
+     ELSE IF s.op = "merge" THEN kept \cup {{s.o + 1, s.o2 + 1}}
+     ELSE kept
+Init == /\ objs = InitObjs(NObj) /\ hist = <<>> /\ cache = [i \in 1..NObj |-> -1] /\ residue = [i \in 1..NObj |-> {}]
+        /\ lazysrc = [i \in 1..NObj |-> <<>>] /\ kin = {}
 Next == /\ Len(hist) < MaxSteps
-        /\ \E s \in Steps : objs' = Apply(Type, objs, s) /\ hist' = Append(hist, s) /\ cache' = NextCache(s)
-View == <<objs, cache>>
+        /\ \E s \in Steps : /\ objs' = Apply(Type, objs, s) /\ hist' = Append(hist, s) /\ cache' = NextCache(s)
+                          /\ residue' = NextResidue(s, Apply(Type, objs, s))
+                          /\ lazysrc' = NextLazySrc(s) /\ kin' = NextKin(s)
+View == <<objs, cache, residue, lazysrc, kin>>
 
 \* ---- expected observation of the last step
 ExpResult(s, pre) ==
@@ -147,7 +186,11 @@ Emit == LET s == hist'[Len(hist')]
             common == [lobjs |-> [i \in 1..NObj |-> ToProj(objs'[i])], chk |-> ""]
         IN PrintT("@@" \o ToJson([type |-> Type, dyn |-> FALSE, nobj |-> NObj, lastonly |-> TRUE, steps |-> hist',
                                   exp |-> IF Skipped(objs, s) THEN common
-                                          ELSE IF s.op = "size" THEN common @@ [lsize |-> ExpSize(s, objs)]
+                                          ELSE IF s.op = "size" THEN
+                                               \* documented exception (C04): a message that may still hold lazily decoded, possibly
+                                               \* non-minimal raw segments need only satisfy Size >= len(Marshal) (checked on traces)
+                                               (IF \E k \in 1..Len(hist) : "nolazy" \in DOMAIN hist[k] /\ ~hist[k].nolazy THEN common
+                                                ELSE common @@ [lsize |-> ExpSize(s, objs)])
                                           ELSE IF s.op = "marshal" THEN common @@ [lerr |-> MarshalErr(Type, objs[s.o + 1], s)]
                                           ELSE common @@ [lr |-> ExpResult(s, objs)]]))
 
